@@ -215,6 +215,8 @@ def run(ctx):
 
 def may_report_set(F):
     """keys of all functions from which a virtual ErrorLogger::reportErr call is reachable (reverse closure over call edges)."""
+    if getattr(F, '_may_report', None) is not None:
+        return F._may_report
     callers = {}
     for f in F.all_fns():
         for g, c in F.callees(f, None):
@@ -227,6 +229,7 @@ def may_report_set(F):
             if c not in seen:
                 seen.add(c)
                 work.append(c)
+    F._may_report = seen
     return seen
 
 
